@@ -16,6 +16,7 @@ from armi.utils.units import TRACE_NUMBER_DENSITY
 
 from harness import _build
 from armi.reactor import components as _components
+from armi.reactor.flags import Flags as _Flags
 
 shims.patch(compmod, np=shims.np_shim)
 shims.patch(cmod, np=shims.np_shim, float=shims.float_shim)
@@ -203,7 +204,24 @@ CASES = {
     "one": (("fuel",), None),
     "last_out": (("fuel", "fuel", "reflector"), ["fuel"]),
     "first_out": (("reflector", "fuel", "fuel"), ["fuel"]),
+    # compound (multi-word) valid types: a member is eligible only if it has EVERY word of at least one valid type;
+    # members that share just one word with a valid type ('outer fuel' / 'inner reflector' against 'inner fuel') are not
+    "compound_mid_out": (("inner fuel", "outer fuel", "inner fuel"), ["inner fuel"]),
+    "compound_first_out": (("inner reflector", "inner fuel", "inner fuel"), ["inner fuel"]),
+    "compound_two_types": (("axial shield", "radial shield", "inner fuel"), ["axial shield", "inner fuel"]),
+    "compound_last_out": (("outer fuel", "control", "inner reflector"), ["outer fuel", "control"]),
+    # ... and a member with MORE words than a one-word valid type is eligible
+    "superset_in": (("inner fuel", "outer fuel", "inner reflector"), ["fuel"]),
 }
+
+
+def eligible(btype, valid):
+    """From the property text ("all valid-block-type filters"; a block HAS a type when it carries all of its words): a
+    member is eligible iff there is no filter or it has every word of at least one of the valid types."""
+    if not valid:
+        return True
+    words = set(btype.split())
+    return any(set(t.split()) <= words for t in valid)
 
 
 def build(ctx, case, pattern, symH=False, allZeros=False, **kw):
@@ -217,7 +235,10 @@ def build(ctx, case, pattern, symH=False, allZeros=False, **kw):
     members = [Member(ctx, k, t, pattern, h=hs[k], fat=(fatFirst and k == 0), **kw) for k, t in enumerate(types)]
     for m in members:
         m.values(ctx, NUCS)
-    elig = [m for m, t in zip(members, types) if valid is None or t in valid]
+    for m, t in zip(members, types):
+        # harness precondition: every word of the type name became a flag of the block (so that words = flags)
+        assert all(m.b.hasFlags(_Flags.fromString(w)) for w in t.split()) and bin(int(m.b.p.flags)).count("1") == len(t.split())
+    elig = [m for m, t in zip(members, types) if eligible(t, valid)]
     return members, elig, valid
 
 
@@ -238,9 +259,11 @@ def mixed_zero(elig, weighted):
                               dict(case="last_out", pattern="shared", kind="flux"),
                               dict(case="first_out", pattern="typical", kind="volume"),
                               dict(case="one", pattern="sparse", kind="flux"),
-                              dict(case="all2", pattern="typical", kind="flux", symH=True)],
+                              dict(case="all2", pattern="typical", kind="flux", symH=True),
+                              dict(case="compound_mid_out", pattern="shared", kind="flux")],
                     "thorough": [dict(case=c, pattern=p, kind=k, symH=s, allZeros=True)
-                                 for c in ("all3", "last_out", "first_out") for p in PATTERNS
+                                 for c in ("all3", "last_out", "first_out", "compound_mid_out", "compound_two_types",
+                                           "superset_in") for p in PATTERNS
                                  for k in ("flux", "volume") for s in (False, True)]})
 def average_block_is_weighted_mean(ctx, case, pattern, kind, symH=False, allZeros=False):
     members, elig, valid = build(ctx, case, pattern, symH=symH, allZeros=allZeros, burn=False)
@@ -317,9 +340,11 @@ def check_nuclide_temperatures(ctx, col, elig, ws):
          instances={"quick": [dict(case="all3", pattern="typical", kind="flux"),
                               dict(case="last_out", pattern="shared", kind="flux"),
                               dict(case="first_out", pattern="shared", kind="volume"),
-                              dict(case="all2", pattern="typical", kind="flux", symH=True)],
+                              dict(case="all2", pattern="typical", kind="flux", symH=True),
+                              dict(case="compound_first_out", pattern="typical", kind="volume")],
                     "thorough": [dict(case=c, pattern=p, kind=k, symH=s, allZeros=True)
-                                 for c in ("all3", "all2", "last_out", "first_out") for p in PATTERNS
+                                 for c in ("all3", "all2", "last_out", "first_out", "compound_mid_out",
+                                           "compound_last_out") for p in PATTERNS
                                  for k in ("flux", "volume") for s in (False, True)]})
 def component_average_is_weighted_mean(ctx, case, pattern, kind, symH=False, allZeros=False):
     members, elig, valid = build(ctx, case, pattern, symH=symH, allZeros=allZeros, burn=False)
@@ -386,7 +411,8 @@ KNOWN_DEFECT_burnup_counts_ineligible_members = False  # repaired in /repo (fix:
          stubs=STUBS, qtimeout_ms=20000,
          instances={"quick": [dict(case="all3", kind="flux"), dict(case="all2", kind="volume"),
                               dict(case="last_out", kind="flux"), dict(case="first_out", kind="volume"),
-                              dict(case="all3", kind="flux", fatFirst=True), dict(case="all2", kind="volume", fatFirst=True)],
+                              dict(case="all3", kind="flux", fatFirst=True), dict(case="all2", kind="volume", fatFirst=True),
+                              dict(case="compound_two_types", kind="flux"), dict(case="superset_in", kind="volume")],
                     "thorough": [dict(case=c, kind=k, fatFirst=f) for c in CASES for k in ("flux", "volume")
                                  for f in (False, True)]})
 def averaged_burnup_is_heavy_metal_weighted_mean(ctx, case, kind, fatFirst=False):
@@ -422,7 +448,8 @@ def averaged_burnup_is_heavy_metal_weighted_mean(ctx, case, kind, fatFirst=False
          stubs=STUBS, qtimeout_ms=20000,
          instances={"quick": [dict(case="all3", wparam=None), dict(case="all3", wparam="flux"),
                               dict(case="all2", wparam="flux"), dict(case="last_out", wparam="flux"),
-                              dict(case="first_out", wparam=None), dict(case="one", wparam=None)],
+                              dict(case="first_out", wparam=None), dict(case="one", wparam=None),
+                              dict(case="compound_mid_out", wparam="flux"), dict(case="compound_last_out", wparam=None)],
                     "thorough": [dict(case=c, wparam=w, pattern=p) for c in CASES for w in (None, "flux")
                                  for p in ("typical", "shared")]})
 def median_block_is_a_member_with_middle_weighted_burnup(ctx, case, wparam, pattern="typical"):
